@@ -210,12 +210,12 @@ def run(R):
     R.assumptions = ["row sums <= 1e4 (the code's absolute 1e-9 stop test is below float resolution beyond ~1e6: documented, not generated)",
                      "on non-dyadic inputs float residue is judged by the property's own 1e-6 tolerances"]
     items = []
-    cnt = 5000 if R.thorough else 160
+    cnt = 5000 if R.thorough else 450
     for t in range(cnt):
         n = R.rng.randint(1, 7 if R.thorough else 6)
         X, kind, exact = gen(R, n)
         items.append({"X": [[fr(x) for x in row] for row in X], "kind": kind, "exact": exact})
-    items += eating_outputs(R, 600 if R.thorough else 30)
+    items += eating_outputs(R, 600 if R.thorough else 60)
     run_items(R, items)
 
 
